@@ -47,7 +47,7 @@ CLAIMED = {
             "DESIGN.md §5 C03"),
     "C13": ("Lean 4 proofs over an arbitrary field (SSWU / SvdW / SwiftEC / Elligator 2 outputs satisfy the curve equation for every input incl. "
             "the exceptional ones; the C code of the maps = the RFC 9380 text for every input; Horner / isogeny, cofactor, try-and-increment "
-            "termination) + correspondence on 9 prime curves in 5 builds, 2 binary curves, Ed25519",
+            "termination) + correspondence on 9 prime curves in 5 builds, 3 curves over Fp2, 2 binary curves, Ed25519",
             "Proved in Lean, for every field element of an arbitrary field with an is_square/sqrt oracle contract that every finite field satisfies: "
             "map_to_curve_simple_swu, map_to_curve_svdw (with the constants defined from Z, or any constants satisfying the defining equations), "
             "SwiftEC (a = 0) and Elligator 2 return a point of the curve - including u with Z^2u^4+Zu^2 = 0 resp. (1-u^2g(Z))(1+u^2g(Z)) = 0 - which "
@@ -62,8 +62,10 @@ CLAIMED = {
             "reducing to 0, +-1, p-1, the exceptional elements of each map, u0 = +-u1, representatives >= p, short / long strings, on NIST / BSI / "
             "SM2 P-256, secp256k1, BN-P256, SM9-P256, Curve25519 (Weierstrass, h = 8), Tweedledum, BLS12-381 G1 (11-isogeny, h_eff = 1 - x); "
             "eb_map on NIST B-283 / K-283; ed_map, ed_map_dst (DST lengths 0..300), Elligator 2 from a field element on Ed25519; each output "
-            "compared with the specification's point exactly, checked on-curve, n*P = O, and evaluated twice for determinism. PARTIAL: curves over "
-            "extension fields (ep2_map* and higher) are not covered; eb_map / ed_map are compared with the specification only (no model).",
+            "ep2_map / ep2_map_sswum / ep2_map_basic on the Fp2 twists of BN-P256, SM9-P256 (SvdW, Fuentes et al. cofactor clearing) and BLS12-381 "
+            "(SSWU, 3-isogeny, Budroni-Pintore); each output compared with the specification's point exactly, checked on-curve, n*P = O, and "
+            "evaluated twice for determinism. PARTIAL: ep2_map_swift and the maps over Fp3 / Fp4 / Fp8 are not covered; eb_map / ed_map / ep2_map "
+            "are compared with the specification only (no model of their C code; the template theorems hold over any field).",
             "Trusted: Lean kernel; hand-written specification and model tied by correspondence; map constants read from the running library and "
             "checked against their defining properties; group law, field oracles, md_xmd are the subjects of C03 / C02 / C14 (compared here, not "
             "re-proved); subgroup membership is per line (theorem only modulo #E = h*r, C18). Known findings C13-1 (ep_curve_set_map accepts a Z "
